@@ -1,6 +1,6 @@
 (* C03 — a task resumes only when all it awaits is done; start order; exactly once per yield.
    Statements only; proofs in proofs/ProgProofs.v, proofs/MachineC02.v, proofs/MachineSteps.v, proofs/MachineC02S.v and
-   proofs/MachineC03T.v, proofs/MachineC03L.v.
+   proofs/MachineC03T.v, proofs/MachineC03L.v, proofs/MachineC03P.v.
    Proved: (1) the dependencies derived from a yielded structure are exactly its futures, in reverse
    written order for list/tuple structures (with the LIFO task stack: tasks first scheduled together
    start in the order written); (2) on the machine, for tree programs, the scheduler resumes a task
@@ -52,14 +52,35 @@
    the guard hypothesis alone (C03_noitem_terminates; C03_noitem_termination_demo: a concrete program with
    nested tasks, a lazy future, a constant, a context and a caught exception, guard hypothesis proved for every
    fuel).
-   NOT proved (correspondence, monitors and the watchdog only): TERMINATION IN GENERAL - that for every tree
-   program WITH batch items there is a fuel at which the run is done.  Items (i) "a flush makes progress" and
-   (iv) "syntactic criterion for the no-flush hypothesis" of the earlier list are now proved (7b, 7c).  Still
-   missing: (ii) the LATER passes terminate (after a flush the stack entries are suspended tasks rather than
-   fresh ones; the induction of (6b) is over the program of a freshly started task), and (iii) a measure
-   bounding the number of passes (e.g. the number of uncomputed allocated futures plus the remaining cost along
-   the actual path; (7b) shows each flush strictly increases the set of computed futures, but later passes
-   also allocate new futures).  Also not proved: never-started for never-awaited tasks,
+   (8) LIVENESS, third part (proofs/MachineC03L.v part 4, proofs/MachineC03P.v; same setting): (a) EVERY _execute
+   pass terminates, not only the first one: from the head of wait_for with the awaited task uncomputed (start of
+   the computation, or right after a flush) the machine reaches MAfterExec with an empty task stack after
+   finitely many steps (C03_every_pass_terminates_tree).  Proof: induction over the creation numbers
+   (dependencies are younger, bound = top_next at the start of the pass); a top entry that is not a first visit
+   is popped by the lemmas of (6b) (C03_top_entry_popped_unless_first_visit_tree: computed / item / lazy /
+   blocked-and-scheduled entries are popped, an unblocked suspended task is resumed and runs with everything it
+   starts until it completes or is stuck again); a first visit pushes the uncomputed dependencies, whose sets of
+   uncomputed descendants are pairwise disjoint (C03_sibling_subtrees_disjoint, from deps_ok.dk_disj), so dealing
+   with one sibling leaves the others' subtrees as they were.  (b) after a flush the next pass starts
+   (C03_next_pass_starts_tree).  (c) the number of flushes is bounded relative to the number of futures created:
+   while the ids stay below N at most N flush points occur (C03_flushes_bounded_tree; each flush computes a
+   future that was not computed, computed futures stay computed).  (d) TERMINATION with ONE hypothesis besides
+   the guard: if the number of futures the run creates is bounded (forall n, top_next <= N) then there is a fuel
+   at which the run is done with the sequential outcome (C03_terminates_if_allocation_bounded_tree; the general
+   reduction is C03_termination_reduced_tree).  C03_termination_demo_with_items: for c01_demo (batch items of two
+   kinds, needs flushes) the guard hypothesis and the bound (10 futures) are proved for every fuel and the
+   theorem instantiates.
+   NOT proved (correspondence, monitors and the watchdog only): UNCONDITIONAL termination of tree programs with
+   batch items.  Of the earlier list, (i) flush progress, (ii) termination of the later passes and (iv) the
+   syntactic no-flush criterion are now proved (7b, 8a, 7c).  Still missing is (iii) only: that the run of a tree
+   program creates boundedly many futures - equivalently a bound on the number of passes.  The intended proof: a
+   function nf : prog -> nat defined by structural recursion along Seq.eval (nf (Yield s k) = futures of the
+   leaves of s + nf (k (unwrap leaf_out s)), which is a natural number because the outcomes fed to the
+   continuations are the specified ones), and the invariant "top_next + sum over the uncomputed tasks of nf of
+   their remaining program (continuation applied to the specified outcome of what they yielded; for the running
+   task the program in MRun) <= 1 + nf p": only Yield changes it (the created futures move from the sum to
+   top_next).  This needs a sum over the heap maintained through every transition and through the nested
+   recursion of inst, which was not done.  Also not proved: never-started for never-awaited tasks,
    no-step-after-done for programs outside stree (stored handles, value() on existing futures) without the
    guard hypothesis, and after a computation that was cut off by the fuel or by the runaway guard. *)
 From Asynq Require Import Machine Seq proofs.ProgProofs proofs.MachineC08 proofs.MachineC01 proofs.MachineC02
@@ -434,3 +455,14 @@ Theorem C03_terminates_if_allocation_bounded_tree : forall P p N,
   exists n, c_mode (run P n (start h s1)) = MDone (eval p).
 Proof. exact terminates_if_allocation_bounded_tree. Qed.
 Print Assumptions C03_terminates_if_allocation_bounded_tree.
+
+(* non-vacuity for a program WITH batch items: c01_demo needs flushes (C03_termination_demos); the guard
+   hypothesis and the allocation bound hold for EVERY fuel, and the theorem gives termination *)
+Theorem C03_termination_demo_with_items :
+  let P := mkP [] 1000 false [] in
+  let h := fst (create [] (FTask c01_demo) (st0 P)) in
+  let s1 := snd (create [] (FTask c01_demo) (st0 P)) in
+  (forall n, no_unwind P n (start h s1)) /\ (forall n, (top_next (c_st (run P n (start h s1))) <= Z.of_nat 10)%Z) /\
+  exists n, c_mode (run P n (start h s1)) = MDone (eval c01_demo).
+Proof. exact c01_demo_terminates. Qed.
+Print Assumptions C03_termination_demo_with_items.
